@@ -490,13 +490,14 @@ _RC_CELLS = R.product_cells(R.int_cells("VP_XT", 0, 3), R.int_cells("VP_XV", 0, 
 
 # ================================================================== 9. which columns a sidecar references
 _REF_NAMES = ["r", "a-b", "_", "x2", "0", "HED", "Ab", "resp-type_2"]
-_SEP = ["", ",", " ", "(", "a"]
+_SEP = ["", ", ", "("]
 
 
 def refs_found(n1: int, n2: int, two: bool, a: int, b: int) -> bool:
     """
     pre: 0 <= n1 < len(_REF_NAMES) and 0 <= n2 < len(_REF_NAMES)
     pre: 0 <= a < len(_SEP) and 0 <= b < len(_SEP)
+    pre: R.env_int("VP_K") is None or n1 == R.env_int("VP_K")
     post: _
     """
     # Sidecar.get_column_refs decides which columns are spliced instead of listed: every {name} written in any
@@ -516,7 +517,8 @@ def refs_found(n1: int, n2: int, two: bool, a: int, b: int) -> bool:
 
 HARNESSES = [
     R.H("refs_found", ["hed.models.sidecar.Sidecar.get_column_refs"],
-        quick=R.tier(timeout=300, bound="8 reference names (letters of both cases, digits, '_', '-') x 5 separators on "
+        quick=R.tier(cells=R.int_cells("VP_K", 0, 7), timeout=300,
+                     bound="8 reference names (letters of both cases, digits, '_', '-') x 3 separators on "
                                         "either side x optional second reference in a value column (solver-enumerated: "
                                         "pandas realises the strings)"),
         what="get_column_refs returns exactly the names written in braces in the HED strings of HED-bearing columns "
